@@ -163,7 +163,7 @@ func ruleCheckValue(c *Ctx) {
 					}
 					eachInstr(fn, func(b *ssa.BasicBlock, ins ssa.Instruction) {
 						bo, isBo := ins.(*ssa.BinOp)
-						if !isBo || bo.Op != token.EQL {
+						if !isBo || (bo.Op != token.EQL && bo.Op != token.NEQ) {
 							return
 						}
 						if !(bo.X == sumV || bo.Y == sumV) {
@@ -182,7 +182,11 @@ func ruleCheckValue(c *Ctx) {
 								r0 = cv.X
 							}
 							if r0 == keyV && keyV != nil && forwarded {
-								if imp, _, _ := CondRelation(n.ReachCond(fn, bo.Block(), ret.Block()), n.CondOf(bo)); imp {
+								match := n.CondOf(bo) // "the entry's value is the check value"
+								if bo.Op == token.NEQ {
+									match = cNot(match)
+								}
+								if imp, _, _ := CondRelation(n.ReachCond(fn, bo.Block(), ret.Block()), match); imp {
 									good, how = true, "range over encodeTable, key returned when value == sum"
 								}
 							}
@@ -405,7 +409,7 @@ func code39SearchedValueDeep(c *Ctx, fn *ssa.Function) (ssa.Value, DeepSite) {
 		}()
 		switch x := s.Ins.(type) {
 		case *ssa.BinOp:
-			if x.Op != token.EQL {
+			if x.Op != token.EQL && x.Op != token.NEQ {
 				return
 			}
 			for _, pair := range [][2]ssa.Value{{x.X, x.Y}, {x.Y, x.X}} {
@@ -447,7 +451,7 @@ func checkCharFunc(c *Ctx, pk string) *ssa.Function {
 	cands := map[*ssa.Function]bool{}
 	c.P.deepEach(enc, 3, func(s DeepSite) {
 		bo, ok := s.Ins.(*ssa.BinOp)
-		if !ok || bo.Op != token.EQL || len(s.Path) == 0 {
+		if !ok || (bo.Op != token.EQL && bo.Op != token.NEQ) || len(s.Path) == 0 {
 			return
 		}
 		for _, pair := range [][2]ssa.Value{{bo.X, bo.Y}, {bo.Y, bo.X}} {
